@@ -47,3 +47,6 @@ package schema
 //@   assert probe-type-is-indirect-field-type: probeTypeTag == tagof(field.IndirectFieldType) && probeTypeBox == boxof(field.IndirectFieldType) [C08]
 //@   assert hooks-called-on-the-probe: boxof(recv) == uf("ifaceOfValue", probePtr) [C08]
 //@   assert hooks-get-their-field: arg0 == field [C08]
+//@ immutable Field.IndirectFieldType
+//@   writers schema.(*Schema).ParseField
+//@   tags C08
